@@ -292,9 +292,11 @@ func (o Opt) Encode(v any) any {
 	case gen.Big:
 		return map[string]any{"t": "big", "text": o.str(string(t)), "dec": Dec(string(t))}
 	case time.Time:
-		return map[string]any{"t": "time", "ns": strconv.FormatInt(t.UnixNano(), 10)}
+		// ns overflows beyond the years 1678..2262 (UnixNano); sec/nsec are exact for every time.Time
+		return map[string]any{"t": "time", "ns": strconv.FormatInt(t.UnixNano(), 10), "sec": strconv.FormatInt(t.Unix(), 10), "nsec": t.Nanosecond()}
 	case gen.Time:
-		return map[string]any{"t": "time", "ns": strconv.FormatInt(time.Time(t).UnixNano(), 10)}
+		tt := time.Time(t)
+		return map[string]any{"t": "time", "ns": strconv.FormatInt(tt.UnixNano(), 10), "sec": strconv.FormatInt(tt.Unix(), 10), "nsec": tt.Nanosecond()}
 	case []any:
 		a := make([]any, len(t))
 		for i, e := range t {
